@@ -794,6 +794,19 @@ def size_accounting(ctx, rid):
 
 
 # ------------------------------------------------------------------------------------------ R7-R9 path mapping (C05)
+def _mentions(ctx, fn, e, name, depth=0):
+    """Expression e (through single-definition locals) refers to local `name`."""
+    for x in ast.walk(e):
+        if isinstance(x, ast.Name):
+            if x.id == name:
+                return True
+            if depth < 2:
+                vals = [p_ for w_, p_ in ctx.res.bindings(fn).get(x.id, []) if w_ == "value"]
+                if len(vals) == 1 and _mentions(ctx, fn, vals[0], name, depth + 1):
+                    return True
+    return False
+
+
 def path_mapping(ctx, rid):
     fr = ctx.prog.func("torrentfile.recheck:Checker.find_root")
     rets = [n for n in own_nodes(fr.node) if isinstance(n, ast.Return) and n.value is not None]
@@ -843,28 +856,71 @@ def path_mapping(ctx, rid):
         guarded = any(C.test_expr(b) is not None and "meta_version" in norm(C.test_expr(b)) and "== 1" in norm(C.test_expr(b)) and lab == "true" for b, lab in deps)
         ctx.decide(rid, cp, guarded, "info.files is consulted only for v1 metafiles: a hybrid is checked through its file tree, so a missing trailing padding entry cannot matter",
                    "info.files is consulted for hybrid metafiles as well", "files only for v1")
-    wf = ctx.prog.func("torrentfile.recheck:Checker.walk_file_tree")
-    loops = [n for n in own_nodes(wf.node) if isinstance(n, ast.For)]
-    if len(loops) != 1:
-        ctx.undecided(rid, wf, "file-tree loop not found")
-    else:
-        l = loops[0]
+    # ---- v2 / hybrid: every entry of the file tree is recorded or descended into (wherever the walk is implemented)
+    ck = ctx.prog.cls("torrentfile.recheck:Checker")
+    recorders = set()
+    changed = True
+    while changed:
+        changed = False
+        for m in ck.methods.values():
+            if m in recorders:
+                continue
+            for n in own_nodes(m.node):
+                if isinstance(n, ast.Call) and ((isinstance(n.func, ast.Attribute) and n.func.attr == "append" and "paths" in norm(n.func.value))
+                                                or any(t in recorders for t in C.targets_of(ctx, m, n))):
+                    recorders.add(m)
+                    changed = True
+                    break
+    walkers = []
+    for m in ck.methods.values():
+        params = [p_ for p_ in m.params if p_ != m.self_name]
+        for l in [n for n in own_nodes(m.node) if isinstance(n, ast.For)]:
+            it = l.iter
+            if isinstance(it, ast.Call) and isinstance(it.func, ast.Attribute) and it.func.attr == "items" and isinstance(it.func.value, ast.Name) and it.func.value.id in params \
+                    and any(isinstance(x, ast.Constant) and x.value == "" for x in ast.walk(l)):
+                walkers.append((m, l))
+    if not walkers:
+        ctx.undecided(rid, None, "the walk over the v2 file tree (a loop over <tree>.items() testing for the '' leaf key) was not found in Checker")
+    for wf, l in walkers:
         gw = C.cfg_of(wf)
         head = gw.of[l]
         bs = C.succ_by_label(head, "iter")[0]
         marks = set()
+        rec = []
         for n in ast.walk(l):
             if isinstance(n, ast.Call):
-                if isinstance(n.func, ast.Attribute) and n.func.attr == "append" and "paths" in norm(n.func.value):
+                tg = C.targets_of(ctx, wf, n)
+                if (isinstance(n.func, ast.Attribute) and n.func.attr == "append" and "paths" in norm(n.func.value)) or any(t in recorders and t is not wf for t in tg):
                     marks.add(gw.of[ctx.prog.enclosing_stmt(n)])
-                if any(t is wf for t in C.targets_of(ctx, wf, n)):
+                if any(t is wf for t in tg):
                     marks.add(gw.of[ctx.prog.enclosing_stmt(n)])
+                    rec.append(n)
+            if isinstance(n, (ast.Yield, ast.YieldFrom)):
+                marks.add(gw.of[ctx.prog.enclosing_stmt(n)])
         skip = [x for st in l.body for x in ast.walk(st) if isinstance(x, (ast.Continue, ast.Break, ast.Return))]
         ok = bool(marks) and gw.must_pass(bs, head, marks) and not skip
         ctx.decide(rid, wf, ok, "v2/hybrid: every file-tree entry is recorded as a leaf or descended into", "v2/hybrid: a file-tree entry can be skipped", l.iter)
-        rec = [n for n in ast.walk(l) if isinstance(n, ast.Call) and any(t is wf for t in C.targets_of(ctx, wf, n))]
-        ok = bool(rec) and all(len(c.args) == 2 and "key" in norm(c.args[1]) and "partials" in norm(c.args[1]) for c in rec)
-        ctx.decide(rid, wf, ok, "descent extends the accumulated path by the directory key", "descent does not extend the accumulated path by the directory key", "tree descent")
+        key = l.target.elts[0].id if isinstance(l.target, ast.Tuple) and isinstance(l.target.elts[0], ast.Name) else None
+        pparam = [p_ for p_ in wf.params if p_ != wf.self_name][-1]
+
+        def extends(e, depth=0):
+            """e == <accumulated path> + [key]  (directly or through one local)"""
+            if isinstance(e, ast.BinOp) and isinstance(e.op, ast.Add):
+                return pparam in norm(e.left) and key is not None and isinstance(e.right, ast.List) and len(e.right.elts) == 1 and norm(e.right.elts[0]) == key
+            if isinstance(e, ast.Name) and depth < 2:
+                vals = [p_ for w_, p_ in ctx.res.bindings(wf).get(e.id, []) if w_ == "value"]
+                return len(vals) == 1 and extends(vals[0], depth + 1)
+            return False
+        if not rec:
+            ctx.undecided(rid, wf, "no recursive descent found in the file-tree walk", "tree descent")
+        else:
+            oks = [len(c.args) == 2 and extends(c.args[1]) for c in rec]
+            if all(oks):
+                ctx.holds(rid, wf, "descent extends the accumulated path by the directory key", "tree descent")
+            elif any(len(c.args) == 2 and (norm(c.args[1]) == pparam or not _mentions(ctx, wf, c.args[1], pparam)) for c in rec):
+                ctx.violated(rid, wf, "descent does not extend the accumulated path by the directory key", "tree descent")
+            else:
+                ctx.undecided(rid, wf, "how the descent extends the accumulated path (`%s`) is not understood" % norm(rec[0].args[1] if len(rec[0].args) > 1 else rec[0]), "tree descent")
     # optional leaf key guarded
     from .c13 import optional_keys
     opt, _ = optional_keys(ctx)
